@@ -188,6 +188,16 @@ def sin(x):
     return SV(_cs_of(a)[1])
 
 
+def tan(x):
+    if not isinstance(x, SV):
+        import math
+
+        return math.tan(x)
+    c, s = cos(x), sin(x)
+    ctx().oblige("safe.tan-defined", c.t != 0, kind="safe")
+    return SV(s.t / c.t)
+
+
 def cs_deg(x):
     """(cos, sin) of an angle given in degrees (used by the scipy Rotation model with degrees=True)"""
     if not isinstance(x, SV):
@@ -295,7 +305,15 @@ def sqrt(x):
             return SV(memo[key])
     except Exception:
         pass
-    cx.oblige("safe.sqrt-domain", t >= 0, kind="safe")
+    sos = False
+    try:
+        from . import poly
+        pp = poly.to_poly(t)
+        sos = all(c >= 0 and all(pw % 2 == 0 for _, pw in m) for m, c in pp.items())
+    except Exception:
+        pass
+    if not sos:
+        cx.oblige("safe.sqrt-domain", t >= 0, kind="safe")
     r = cx.fresh("sqrt")
     cx.axiom("sqrt(x)=r: r>=0 and r*r=x", z3.And(r >= 0, r * r == t))
     memo[key] = r
